@@ -191,6 +191,7 @@ pub fn token_soup(rng: &mut Rng, max_tokens: usize) -> Vec<u8> {
         b"{",
         b"}",
         b"\t",
+        b"\xEF\xBB\xBF",
         b"\xb2",
         b"\xb9\xbc",
         b"\xff",
